@@ -43,6 +43,21 @@ def drv(v, key, reuse, encl_int, default, with_remove):
     return (se, me, ss, ms, e.fields[0].value, st.value, len(lib.blocks), late.value)
 
 
+def drv_twice(v, key, default):
+    """RemoveEnclosing applied twice to the same entry / string, then Add with reuse: every pass strips one layer and
+    records it, so adding restores the value as it was before the LAST removal"""
+    e = Entry("article", "k", [Field(key, v)])
+    st = String("s", v)
+    lib = Library([e, st])
+    lib = RemoveEnclosingMiddleware(True).transform(lib)
+    mid = (e.fields[0].value, st.value)
+    lib = RemoveEnclosingMiddleware(True).transform(lib)
+    last = (e.fields[0].value, st.value)
+    add = AddEnclosingMiddleware(reuse_previous_enclosing=True, enclose_integers=True, default_enclosing=default, allow_inplace_modification=True)
+    lib = add.transform(lib)
+    return mid, last, (e.fields[0].value, st.value)
+
+
 def drv_reuse(v1, v2, key, reuse, encl_int, default):
     """one Remove and one Add instance on two libraries in a row; the second must come out as from fresh instances"""
     def run(rm, add, v):
@@ -163,6 +178,8 @@ def replay(v, key, reuse, encl_int, default, with_remove):
     try:
         se, me, ss, ms, fe, fs, nb, lv = drv(v, key, reuse, encl_int, default, with_remove)
     except Exception as ex:  # noqa
+        from pysym.harness import guard_repo_exception
+        guard_repo_exception(ex)
         return {"input": [v, key, reuse, encl_int, default, with_remove], "observed": f"raised {type(ex).__name__}: {ex}", "expected": "no exception"}
     bad = []
     if with_remove:
@@ -195,6 +212,8 @@ def replay_reparse(v, default):
     try:
         r = drv_reparse(v, default)
     except Exception as ex:  # noqa
+        from pysym.harness import guard_repo_exception
+        guard_repo_exception(ex)
         return {"input": [v, default], "observed": f"raised {type(ex).__name__}: {ex}", "expected": "one field"}
     if r is None:
         return None
@@ -325,6 +344,40 @@ def task_reparse(L, default, prefix=""):
     return rec.result(worlds=len(worlds))
 
 
+def task_twice(L, key, default):
+    eng = Engine()
+    rec = Recorder(eng)
+    v, g = sym_value(eng, L)
+    E = eng.I.models.eq_simple
+    worlds = eng.run(drv_twice, [v, key, default], guard=g)
+
+    def rp(m):
+        import logging
+        logging.disable(logging.CRITICAL)
+        val = eng.model_str(m, v)
+        try:
+            mid, last, fin = drv_twice(val, key, default)
+        except Exception as ex:  # noqa
+            from pysym.harness import guard_repo_exception
+            guard_repo_exception(ex)
+            return {"input": [val, key, default], "observed": f"raised {type(ex).__name__}: {ex}", "expected": "no exception"}
+        if fin == mid or mid[0] != mid[0].strip():
+            return None     # a value with surrounding white space is not one the splitter can produce (outside the quantifier)
+        return {"input": [val, key, default], "observed": {"after first removal": mid, "after second removal": last, "after add(reuse)": fin},
+                "expected": "add(reuse) restores the values as they were before the last removal"}
+    for W in worlds:
+        if W.exc is not None:
+            rec.require(W, True, "twice-no-exception", rp)
+            continue
+        mid, last, fin = W.result
+        mc = chars(mid[0])
+        ws = lambda c: b_any(ch_eq(c, w) for w in " \n")
+        edge_ws = b_or(ws(mc[0]), ws(mc[-1])) if len(mc) else False
+        rec.require(W, b_and(b_not(edge_ws), b_not(E(list(fin), list(mid)))), "second-removal-recorded", rp)
+        rec.witness("removed-twice", W)
+    return rec.result(worlds=len(worlds))
+
+
 def task_reuse(L1, L2, key, reuse, encl_int, default):
     eng = Engine()
     rec = Recorder(eng)
@@ -343,6 +396,8 @@ def task_reuse(L1, L2, key, reuse, encl_int, default):
         try:
             r1, f1, r2, f2 = drv_reuse(a, b, key, reuse, encl_int, default)
         except Exception as ex:  # noqa
+            from pysym.harness import guard_repo_exception
+            guard_repo_exception(ex)
             return {"input": [a, b, key, reuse, encl_int, default], "observed": f"raised {type(ex).__name__}: {ex}", "expected": "no exception"}
         if r1 == f1 and r2 == f2:
             return None
@@ -366,7 +421,7 @@ def main():
     chk.assumptions = ["values contain only the alphabet characters; '1' is the only digit",
                        "re-parse clause: brace balance is escape-aware (a backslash escapes the next character), value must not end in an unescaped backslash, and for the quote default contains no bare quote at depth 0 - as in the statement",
                        "integer rule: 'digit strings' are str.isdigit() strings over the alphabet (ASCII '1'; '1_1' and the like are not digit strings)"]
-    chk.expected_vacuity = ["stripped-{", 'stripped-"', "digits-left-unenclosed", "int-left-unenclosed", "balanced-value-reparsed", "instance-reused"]
+    chk.expected_vacuity = ["stripped-{", 'stripped-"', "digits-left-unenclosed", "int-left-unenclosed", "balanced-value-reparsed", "instance-reused", "removed-twice"]
     for key, reuse, encl_int, default, with_remove in itertools.product(("year", "title"), (True, False), (True, False), ("{", '"'), (True, False)):
         for L in range(LS, -1, -1):
             chk.add_task(f"str-{key}-r{int(reuse)}-i{int(encl_int)}-{default}-rm{int(with_remove)}-L{L}", task_str, L=L, key=key,
@@ -380,6 +435,10 @@ def main():
             for L in (2, 1):
                 chk.add_task(f"str-{key}-r{int(reuse)}-i{int(encl_int)}-{default}-rm1-L{L}", task_str, L=L, key=key,
                              reuse=reuse, encl_int=encl_int, default=default, with_remove=True)
+    chk.bounds["removal applied twice"] = "values of length 0..5, key year / title, both defaults: Remove, Remove, Add(reuse) gives the value as it was before the last removal"
+    for key, default in itertools.product(("year", "title"), ("{", '"')):
+        for L in range(5, -1, -1):
+            chk.add_task(f"twice-{key}-{default}-L{L}", task_twice, L=L, key=key, default=default)
     chk.bounds["one instance, two libraries"] = "Remove + Add instances applied to two libraries in a row, values of length 0..3 and 0..3, all option combinations, key year / title"
     for key, reuse, encl_int, default in itertools.product(("year", "title"), (True, False), (True, False), ("{", '"')):
         for L1, L2 in ((3, 3), (2, 3), (1, 2), (0, 1), (2, 0)):
